@@ -38,6 +38,8 @@ def make_config(r, kind):
             u = r.random()
             if u < 0.3 and cfg["bounds"]:
                 lim.append(("bnd", cfg["bounds"][0][i], cfg["bounds"][1][i]))
+            elif u < 0.4 and cfg["bounds"] and cfg["start"][i] >= 0 and cfg["bounds"][1][i] > 0:
+                lim.append(("both", cfg["bounds"][0][i], cfg["bounds"][1][i]))
             elif u < 0.5 and cfg["start"][i] >= 0:
                 lim.append(("abs",))
             else:
@@ -72,7 +74,7 @@ def make_config(r, kind):
             cfg["eps"] /= 2
     if kind == "ensemble":
         nw = n + 1 + r.randint(0, 3)
-        cfg["alpha"] = r.choice([2.0, 2.0, 8.0])
+        cfg["alpha"] = r.choice([2.0, 2.0, 8.0, 1.5, 3.0, 5.0])
         def valid(sp):
             arr = np.array(sp, dtype=float)
             try:
@@ -133,6 +135,9 @@ def build(cfg, uniform_bits=None):
             for i, lim in enumerate(cfg["limits"]):
                 if lim[0] == "bnd":
                     ch.set_boundaries(i, (lim[1], lim[2]))
+                elif lim[0] == "both":
+                    ch.set_boundaries(i, (lim[1], lim[2]))
+                    ch.set_non_negative(i, True)
                 elif lim[0] == "abs":
                     ch.set_non_negative(i, True)
             for p in ch.params:
